@@ -225,10 +225,10 @@ func CustomDec(t reflect.Type) bool {
 
 // Universe is everything reachable from the two message types.
 type Universe struct {
-	Structs  []reflect.Type                    // sorted by TypeName
-	Ops      []kmip.Operation                  // registered operations, sorted
+	Structs  []reflect.Type                     // sorted by TypeName
+	Ops      []kmip.Operation                   // registered operations, sorted
 	OpTypes  map[kmip.Operation][2]reflect.Type // request, response payload struct types
-	Attrs    []kmip.AttributeName              // registered attribute names, sorted
+	Attrs    []kmip.AttributeName               // registered attribute names, sorted
 	AttrType map[kmip.AttributeName]reflect.Type
 	Objs     []kmip.ObjectType // registered object types, sorted
 	ObjType  map[kmip.ObjectType]reflect.Type
